@@ -361,3 +361,300 @@ Fixpoint succ_of (n : nat) (xs : list nat) : option nat :=
   end.
 Definition pred_of (n : nat) (xs : list nat) : option nat := succ_of n (rev xs).
 Definition aowner a (n : nat) (l : nat) : bool := mem n (alist a l).
+
+(* ======================================================================================================
+   The iteration methods: ForEach / ForEachReverse / Range / RangeReverse (Values = Range with a collecting
+   callback) with a callback that may call back into the lists or (ForEach kinds) return an error.
+
+   list.Range:    for element := l.Front(); element != nil; element = element.Next() { callback(element.Value()) }
+   list.ForEach:  the same loop, "if err := callback(...); err != nil { return err }"
+   The successor is read AFTER the callback returned.
+
+   A scripted callback: what it does at its visit 0, 1, 2, ... (nothing once the script is used up). One visit
+   = nothing, abort (return an error; the Range kinds have no error result, there it is nothing), a panic, or ONE call of
+   a list method whose handle arguments are the visited element, its Next(), its Prev() or a fixed handle. *)
+Inductive rel := Cur | Nxt | Prv | Abs (p : ptr).
+Inductive cbact :=
+| CNop
+| CAbort
+| CPanic                                                (* the callback itself panics *)
+| CPush (back : bool) (l : nat) (v : Z)                 (* l.PushBack(v) / l.PushFront(v) *)
+| CRemove (l : nat) (r : rel)
+| CInsert (after : bool) (l : nat) (v : Z) (r : rel)    (* l.InsertAfter(v, r) / l.InsertBefore(v, r) *)
+| CMoveEnd (back : bool) (l : nat) (r : rel)            (* l.MoveToBack(r) / l.MoveToFront(r) *)
+| CMove (after : bool) (l : nat) (r m : rel)            (* l.MoveAfter(r, m) / l.MoveBefore(r, m) *)
+| CPushList (back : bool) (l o : nat)                   (* l.PushBackList(o) / l.PushFrontList(o) *)
+| CInit (l : nat).
+
+(* the call a callback action makes, given how its relative handles resolve; None = nothing to call
+   (the script says "Next of the visited element" and there is none) *)
+Definition cb_op_with (res : rel -> option ptr) (a : cbact) : option op :=
+  match a with
+  | CNop | CAbort | CPanic => None
+  | CPush b l v => Some (if b then PushBack l v else PushFront l v)
+  | CRemove l r => option_map (Remove l) (res r)
+  | CInsert af l v r => option_map (fun q => if af then InsertAfter l v q else InsertBefore l v q) (res r)
+  | CMoveEnd b l r => option_map (fun q => if b then MoveToBack l q else MoveToFront l q) (res r)
+  | CMove af l r m => e <- res r ;; q <- res m ;; Some (if af then MoveAfter l e q else MoveBefore l e q)
+  | CPushList b l o => Some (if b then PushBackList l o else PushFrontList l o)
+  | CInit l => Some (Init l)
+  end.
+
+Definition rel_ptr st (p : ptr) (r : rel) : option ptr :=
+  match r with Cur => Some p | Nxt => elem_next st p | Prv => elem_prev st p | Abs q => Some q end.
+Definition cb_op st p (a : cbact) : option op := cb_op_with (rel_ptr st p) a.
+
+Definition is_abort (a : cbact) : bool := match a with CAbort => true | _ => false end.
+Definition is_panic (a : cbact) : bool := match a with CPanic => true | _ => false end.
+
+(* element.Next() / element.Prev(), by direction of the walk *)
+Definition adv (rv : bool) : state -> ptr -> option ptr := if rv then elem_prev else elem_next.
+
+(* result of a walk: final state, the values handed to the callback in order, aborted with an error? *)
+Definition iterres : Type := state * list Z * bool.
+
+(* the loop, structurally over the script; once the script is used up the rest of the walk is passive (= [walk]).
+   [call] is how the callback's calls are executed: [step] for the lock-free list. None = a panic. *)
+Fixpoint iter_walk (call : state -> op -> option state) (rv fe : bool) (script : list cbact) st (e : option ptr)
+  : option iterres :=
+  match script with
+  | [] => Some (st, walk (adv rv) (S (S (fresh st))) st e, false)
+  | a :: rest =>
+      match e with
+      | None => Some (st, [], false)
+      | Some p =>
+          let v := value_of st p in
+          if fe && is_abort a then Some (st, [v], true) else
+          if is_panic a then None else
+          st1 <- match cb_op st p a with None => Some st | Some o => call st o end ;;
+          r <- iter_walk call rv fe rest st1 (adv rv st1 p) ;;   (* the successor is read in the NEW state *)
+          Some (fst (fst r), v :: snd (fst r), snd r)
+      end
+  end.
+
+Definition first (rv : bool) st l : option ptr := if rv then back st l else front st l.
+
+(* a history entry: one of the twelve calls, or an iteration of list l (rv: reverse, fe: a ForEach kind) *)
+Inductive call := Call (o : op) | Iter (l : nat) (rv fe : bool) (script : list cbact).
+Inductive cout := COut (o : out) | CIter (visited : list Z) (aborted : bool).
+
+Definition step_state st o : option state := option_map fst (step st o).
+
+Definition cstep st (c : call) : option (state * cout) :=
+  match c with
+  | Call o => r <- step st o ;; Some (fst r, COut (snd r))
+  | Iter l rv fe script =>
+      r <- iter_walk step_state rv fe script st (first rv st l) ;;
+      Some (fst (fst r), CIter (snd (fst r)) (snd r))
+  end.
+
+Fixpoint crun st (h : list call) : option (state * list cout) :=
+  match h with
+  | [] => Some (st, [])
+  | c :: r => s1 <- cstep st c ;; s2 <- crun (fst s1) r ;; Some (fst s2, snd s1 :: snd s2)
+  end.
+
+(* ---- the reference: the loop "for e := l.Front(); e != nil; e = e.Next() { f(e) }" over container/list ---- *)
+Definition dir (rv : bool) (xs : list nat) : list nat := if rv then rev xs else xs.
+Definition arel a l (n : nat) (r : rel) : option ptr :=
+  match r with
+  | Cur => Some (El n)
+  | Nxt => option_map El (succ_of n (alist a l))
+  | Prv => option_map El (pred_of n (alist a l))
+  | Abs q => Some q
+  end.
+Definition acb_op a l n (act : cbact) : option op := cb_op_with (arel a l n) act.
+
+(* what is left of the list from element n on (n first) *)
+Fixpoint from (n : nat) (xs : list nat) : list nat :=
+  match xs with [] => [] | x :: r => if Nat.eqb x n then xs else from n r end.
+
+Definition aiterres : Type := astate * list Z * bool.
+Fixpoint aiter (rv fe : bool) (script : list cbact) a l (e : option nat) : aiterres :=
+  match script with
+  | [] => (a, match e with None => [] | Some n => map (aval a) (from n (dir rv (alist a l))) end, false)
+  | act :: rest =>
+      match e with
+      | None => (a, [], false)
+      | Some n =>
+          let v := aval a n in
+          if fe && is_abort act then (a, [v], true) else
+          let a1 := match acb_op a l n act with None => a | Some o => fst (astep a o) end in
+          let r := aiter rv fe rest a1 l (succ_of n (dir rv (alist a1 l))) in
+          (fst (fst r), v :: snd (fst r), snd r)
+      end
+  end.
+
+Definition acstep a (c : call) : astate * cout :=
+  match c with
+  | Call o => let r := astep a o in (fst r, COut (snd r))
+  | Iter l rv fe script =>
+      let r := aiter rv fe script a l (hd_error (dir rv (alist a l))) in
+      (fst (fst r), CIter (snd (fst r)) (snd r))
+  end.
+
+Fixpoint acrun a (h : list call) : astate * list cout :=
+  match h with
+  | [] => (a, [])
+  | c :: r => let s1 := acstep a c in let s2 := acrun (fst s1) r in (fst s2, snd s1 :: snd s2)
+  end.
+
+(* zombie-freeness of an iteration: no callback call passes an Init-orphaned handle, no callback orphans
+   the element the walk stands on (its Next() would read a dead ring, as in container/list), and no callback
+   panics by itself (then the iteration has no result, in the reference loop either) *)
+Fixpoint iter_zombie_free (rv fe : bool) (script : list cbact) a l (e : option nat) : bool :=
+  match script with
+  | [] => true
+  | act :: rest =>
+      match e with
+      | None => true
+      | Some n =>
+          if fe && is_abort act then true else
+          let o := acb_op a l n act in
+          let a1 := match o with None => a | Some o => fst (astep a o) end in
+          negb (is_panic act) &&
+          negb (match o with None => false | Some o => existsb (is_orphan a) (handles o) end) &&
+          negb (mem n (aorph a1)) &&
+          iter_zombie_free rv fe rest a1 l (succ_of n (dir rv (alist a1 l)))
+      end
+  end.
+
+Definition call_zombie_free a (c : call) : bool :=
+  match c with
+  | Call o => negb (existsb (is_orphan a) (handles o))
+  | Iter l rv fe script => iter_zombie_free rv fe script a l (hd_error (dir rv (alist a l)))
+  end.
+
+Fixpoint czombie_free a (h : list call) : bool :=
+  match h with
+  | [] => true
+  | c :: r => call_zombie_free a c && czombie_free (fst (acstep a c)) r
+  end.
+
+(* ======================================================================================================
+   The thread-safe flavour with its RWMutex made explicit (one per list; sequential caller, so a lock
+   that cannot be taken is never released by somebody else: the call blocks for ever).
+   Every method is  lock; defer unlock; body  - the deferred unlock runs on every exit path: normal
+   return, return of the callback's error, a panic out of the body. *)
+Record locks := lk { rd : list nat; wr : list nat }.   (* the holds, newest first: one entry per RLock / Lock *)
+Definition lk0 : locks := lk [] [].
+
+Fixpoint remove1 (l : nat) (xs : list nat) : list nat :=
+  match xs with [] => [] | x :: r => if Nat.eqb x l then r else x :: remove1 l r end.
+
+Definition can_rlock (k : locks) l : bool := negb (mem l (wr k)).
+Definition can_lock (k : locks) l : bool := negb (mem l (wr k)) && negb (mem l (rd k)).
+Definition rlock k l := lk (l :: rd k) (wr k).
+Definition runlock k l := lk (remove1 l (rd k)) (wr k).
+Definition wlock k l := lk (rd k) (l :: wr k).
+Definition wunlock k l := lk (rd k) (remove1 l (wr k)).
+
+(* the list a mutating call locks *)
+Definition op_list (o : op) : nat :=
+  match o with
+  | Init l | PushFront l _ | PushBack l _ | Remove l _ | InsertBefore l _ _ | InsertAfter l _ _
+  | MoveToFront l _ | MoveToBack l _ | MoveBefore l _ _ | MoveAfter l _ _ | PushBackList l _ | PushFrontList l _ => l
+  end.
+
+(* exit paths of a wrapper method and whether the lock is released on them. The code uses defer: all true. *)
+Record relpolicy := rp { rel_normal : bool; rel_error : bool; rel_panic : bool }.
+Definition deferred : relpolicy := rp true true true.
+
+Inductive tres (A : Type) := TDone (r : option A) (k : locks) | TBlocked.
+Arguments TDone {A}. Arguments TBlocked {A}.
+
+(* one of the twelve calls on the wrapper, from lock state k *)
+Definition op_ts (fixed : bool) (k : locks) st (o : op) : tres (state * out) :=
+  let l := op_list o in
+  if negb (can_lock k l) then TBlocked else
+  let k1 := wlock k l in
+  let inner_ok :=
+    match o with
+    | PushBackList _ o' | PushFrontList _ o' =>
+        match other_ref fixed l o' with TS o'' => can_rlock k1 o'' | Inner _ => true end
+        (* other.Len() / Front() / Back(): RLock(other); RUnlock(other) - balanced, reads only *)
+    | _ => true
+    end in
+  if negb inner_ok then TBlocked else TDone (step st o) (wunlock k1 l).
+
+(* the walk of ForEach/Range on the wrapper: the callback's calls go to wrapper methods under lock state k
+   (which has this iteration's read lock); TBlocked as soon as one of them blocks *)
+Fixpoint iter_walk_ts (k : locks) (rv fe : bool) (script : list cbact) st (e : option ptr) : tres iterres :=
+  match script with
+  | [] => TDone (Some (st, walk (adv rv) (S (S (fresh st))) st e, false)) k
+  | a :: rest =>
+      match e with
+      | None => TDone (Some (st, [], false)) k
+      | Some p =>
+          let v := value_of st p in
+          if fe && is_abort a then TDone (Some (st, [v], true)) k else
+          if is_panic a then TDone None k else
+          match (match cb_op st p a with None => TDone (Some (st, ONone)) k | Some o => op_ts true k st o end) with
+          | TBlocked => TBlocked
+          | TDone None k1 => TDone None k1                        (* the callback's call panicked *)
+          | TDone (Some (st1, _)) k1 =>
+              match iter_walk_ts k1 rv fe rest st1 (adv rv st1 p) with
+              | TBlocked => TBlocked
+              | TDone None k2 => TDone None k2
+              | TDone (Some r) k2 => TDone (Some (fst (fst r), v :: snd (fst r), snd r)) k2
+              end
+          end
+      end
+  end.
+
+Definition release (pol : relpolicy) (r : option iterres) : bool :=
+  match r with
+  | None => rel_panic pol
+  | Some (_, _, true) => rel_error pol
+  | Some (_, _, false) => rel_normal pol
+  end.
+
+Definition cstep_ts_gen (pol : relpolicy) (k : locks) st (c : call) : tres (state * cout) :=
+  match c with
+  | Call o =>
+      match op_ts true k st o with
+      | TBlocked => TBlocked
+      | TDone r k1 => TDone (option_map (fun r => (fst r, COut (snd r))) r) k1
+      end
+      (* (Front/first of an iteration take and release the read lock inside the loop header: t.list.ForEach
+         calls the embedded list's Front directly, no further lock) *)
+  | Iter l rv fe script =>
+      if negb (can_rlock k l) then TBlocked else
+      match iter_walk_ts (rlock k l) rv fe script st (first rv st l) with
+      | TBlocked => TBlocked
+      | TDone r k1 =>
+          TDone (option_map (fun r => (fst (fst r), CIter (snd (fst r)) (snd r))) r)
+                (if release pol r then runlock k1 l else k1)
+      end
+  end.
+Definition cstep_ts := cstep_ts_gen deferred.
+
+Fixpoint crun_ts_gen (pol : relpolicy) (k : locks) st (h : list call) : tres (state * list cout) :=
+  match h with
+  | [] => TDone (Some (st, [])) k
+  | c :: r =>
+      match cstep_ts_gen pol k st c with
+      | TBlocked => TBlocked
+      | TDone None k1 => TDone None k1
+      | TDone (Some s1) k1 =>
+          match crun_ts_gen pol k1 (fst s1) r with
+          | TBlocked => TBlocked
+          | TDone None k2 => TDone None k2
+          | TDone (Some s2) k2 => TDone (Some (fst s2, snd s1 :: snd s2)) k2
+          end
+      end
+  end.
+Definition crun_ts := crun_ts_gen deferred.
+
+(* a callback never writes the list being iterated (such a call asks for the write lock under the
+   iteration's own read lock) *)
+Definition cb_list (a : cbact) : option nat :=
+  match a with
+  | CNop | CAbort | CPanic => None
+  | CPush _ l _ | CRemove l _ | CInsert _ l _ _ | CMoveEnd _ l _ | CMove _ l _ _ | CPushList _ l _ | CInit l => Some l
+  end.
+Definition ts_safe (c : call) : bool :=
+  match c with
+  | Call _ => true
+  | Iter l _ _ script => forallb (fun a => negb (optnat_eqb (cb_list a) (Some l))) script
+  end.
